@@ -218,8 +218,15 @@ def r3_argument_binding(ctx: Ctx) -> None:
     pm = ctx.repo.func("a816.parse.parser_states", "parse_map")
     written: set[str] | None = None
     for n in walk_no_nested(pm.node):
-        if isinstance(n, ast.Compare) and isinstance(n.ops[0], ast.In) and isinstance(n.comparators[0], (ast.Set, ast.List, ast.Tuple)):
-            written = {const_str(e) for e in n.comparators[0].elts}  # type: ignore[misc]
+        if isinstance(n, ast.Compare) and isinstance(n.ops[0], (ast.In, ast.NotIn)):
+            coll: ast.AST | None = n.comparators[0]
+            if isinstance(coll, ast.Name):  # a module-level literal (frozenset / tuple) bound once
+                mi_ = pm.module
+                coll = mi_.assigns.get(coll.id) if sum(1 for n_, _s in mi_.assigns_all if n_ == coll.id) == 1 else None
+                if isinstance(coll, ast.Call) and call_name(coll) in ("frozenset", "tuple", "set") and len(coll.args) == 1:
+                    coll = coll.args[0]
+            if isinstance(coll, (ast.Set, ast.List, ast.Tuple)) and all(const_str(e) is not None for e in coll.elts):
+                written = {const_str(e) for e in coll.elts}  # type: ignore[misc]
     if written is None:
         raise AnalysisError("parse_map: accepted key set not found")
     gm = ctx.repo.func("a816.parse.codegen", "generate_map")
